@@ -19,6 +19,8 @@ import LtVerif.Model.ArithRange
 import LtVerif.Model.H1Parse
 import LtVerif.Proofs.Arith
 import LtVerif.Proofs.ArithRange
+import LtVerif.Model.ArithTmpBuf
+import LtVerif.Proofs.ArithTmpBuf
 namespace LtVerif.C12
 open LtVerif LtVerif.B LtVerif.Arith
 
@@ -414,6 +416,33 @@ example : h2HeadersLen 3 flagPadded 3 = .protoErr := by decide
 example : h2DataLen 5 flagPadded 4 = .ok 1 0 ∧ h2DataLen 5 flagPadded 5 = .protoErr := by decide
 example : h2Cont 16384 [0, 0, 2, 1, 0, 0, 0, 0, 1, 0x82, 0x86, 0, 0, 1, 9, 4, 0, 0, 0, 1, 0x84]
     = .merged 12 [0, 0, 3, 1, 4, 0, 0, 0, 1, 0x82, 0x86, 0x84] false := by decide +kernel
+
+/-! ## the shared scratch buffer (srv->tmp_buf) over histories of two modules -/
+
+/-- **HPACK scratch buffer never below what h2.c asserts, over every history.**  `srv->tmp_buf` is ONE
+    buffer shared by every request; `h2_init_con` sizes it (131071+1) and `h2_parse_headers_frame` /
+    `h2_send_headers` / `h2_send_headers_block` `force_assert` 64 KiB / 128 KiB before HPACK coding, while
+    mod_fastcgi uses the same buffer to log FCGI_STDERR records (`buffer_clear` + prepare_append + truncate).
+    For EVERY interleaving of {connection set-up, retire, HEADERS decode, FCGI_STDERR record (content
+    ≤ 65535, padding ≤ 255: what the record header can carry), FCGI_STDOUT record}, from every well-formed
+    buffer state (in particular the fresh server, and — the theorem being over all `ops` — after every
+    prefix): no step aborts (neither the h2 size assertion nor a buffer.c assertion), the buffer stays
+    well-formed, its size never decreases and never exceeds 786684 octets [growth], and whenever an HTTP/2
+    connection is open its size is ≥ 131072.  Not covered: other users of `r->tmp_buf` (they are required
+    to leave `size` alone — `buffer_clear`, never `buffer_reset`/`buffer_free_ptr`: not derived for them). -/
+theorem c12_tmpbuf_histories (ops : List TbOp) (hl : TbLegalAll ops) (s : TbSt) (hi : TbInv s) :
+    ∃ sf tr, tbRun s ops = some (sf, tr) ∧ sf.b.used ≤ sf.b.size ∧ s.b.size ≤ sf.b.size ∧
+      (∀ x ∈ tr, s.b.size ≤ x ∧ x ≤ 786684) ∧ (sf.h2open = true → h2EncodeNeed ≤ sf.b.size) := by
+  obtain ⟨sf, tr, h1, h2, h3, h4⟩ := tbRun_inv ops s hi hl
+  exact ⟨sf, tr, h1, h2.1, h3, h4, h2.2.2⟩
+
+example : TbInv ⟨⟨0, 0⟩, false⟩ := ⟨by decide, by decide, by intro h; cases h⟩
+example : TbLegalAll [.fcgiErr 5000 3, .h2init, .fcgiErr 100 0, .h2hdr, .fcgiErr 65535 255, .h2hdr, .h2retire] := by
+  simp [TbLegalAll, TbLegal]
+example : (tbRun ⟨⟨0, 0⟩, false⟩ [.fcgiErr 5000 3, .h2init, .fcgiErr 100 0, .h2hdr, .h2retire]).map (·.2)
+    = some [8193, 131073, 131073, 131073, 131073] := by decide
+/-- the assertion is in the model: a scratch buffer that was shrunk behind h2's back aborts the decode -/
+example : tbStep ⟨⟨31, 129⟩, true⟩ .h2hdr = none := by decide
 
 /-! ## http_range.c -/
 
